@@ -92,7 +92,7 @@ def run(ctx):
     # pairing plumbing: every pair reaches the Miller loop
     from .c02 import check_pipeline
 
-    for fk in ("helpers::pairing_g1_g2", "helpers::pairing_g2_g1"):
+    for fk in ("<Bls12381G1Impl as Pairing>::pairing", "<Bls12381G2Impl as Pairing>::pairing"):
         check_pipeline(ctx, P, fk)
     F.check_message_blind_control(ctx, "E6.msg-blind", P, ["SecretKey<C>::sign", "SecretKeyShare<C>::sign", "Signature<C>::verify"], floor=4)
     # 3b. "signing succeeds" / "verifies": no abort-capable site on the honest path is left undischarged (both profiles)
